@@ -605,3 +605,12 @@ package encoder
 //@   callassert doIndent: apartC(arg1, bb)
 //@   assumecalls doIndent: the output buffer and the pooled marshal buffer are distinct pooled arrays and user code (MarshalJSON) does not exchange them
 //@   assigns all
+
+// ---------------------------------------------------------------- nesting depth of Compact / Indent (C18, C06)
+// One scan before the recursive value functions run: every index is in range, the scan terminates, nothing is written.
+//@ func checkNestingDepth(src) (err)
+//@   props C18 C06
+//@   assigns nothing
+//@   loop 1: invariant 0 <= i && i <= len(src) + 1 && 0 - i <= depth && depth <= i
+//@   loop 1: decreases len(src) + 1 - i
+
